@@ -49,6 +49,11 @@ func stlRead(n int, c stlCase, ignore bool) stlEvent {
 	ev := stlEvent{N: n, Dir: "read", Ignore: ignore, G: c.G, D: c.D, Hooks: []stlHook{}}
 	ev.Post.Norm()
 	raw := stlx.Pack(c.D)
+	if n%3 == 2 && len(raw) > 255 {
+		// the time code status of the GSI block ('1' intended for use, '0' not): it says nothing about the programme
+		// start, which the statement subtracts "unless told to ignore it"
+		raw[255] = '0'
+	}
 	dumpDoc("stl", n, raw)
 	var s *astisub.Subtitles
 	var err error
